@@ -248,3 +248,22 @@ func Digits(tag string, n int) string {
 	}
 	return string(b)
 }
+
+// Shared declares the struct behind ptr as shared between goroutines (race analysis of the
+// symbolic engine; natively the Go race detector watches everything).
+func Shared(ptr interface{}, name string) {}
+
+// Parallel runs f and g as two goroutines (natively: concurrently, repeatedly, under the
+// race detector when the check asks for it; symbolically: as two threads of a lockset analysis).
+func Parallel(f, g func()) {
+	for i := 0; i < 20; i++ {
+		done := make(chan struct{})
+		go func() { defer close(done); f() }()
+		g()
+		<-done
+	}
+}
+
+// Races is the number of conflicting unsynchronised access pairs found by the engine
+// (natively 0: there the race detector's report is the evidence).
+func Races() int { return 0 }
